@@ -5,6 +5,8 @@ import (
 	"go/constant"
 	"go/token"
 	"go/types"
+	"sort"
+	"strconv"
 	"strings"
 
 	"golang.org/x/tools/go/ssa"
@@ -64,7 +66,7 @@ type Interp struct {
 	maxSteps  int
 	depth     int
 
-	inputs     []*Term          // input variables created on this path, in order
+	inputs     []*Term           // input variables created on this path, in order
 	inputKinds map[string]string // name -> "int"/"byte"/"bool"/"str:<n>"/"choice"
 	strInputs  map[string][]*Term
 	choiceVals map[string]int64
@@ -79,12 +81,15 @@ type Interp struct {
 
 	unknowns int
 	stats    struct {
-		feasQ, assertQ int
+		feasQ, assertQ, cacheHits int
 	}
-	cfg *Config
+	qcache   map[string]string
+	varCache map[int][]int
+	varIDs   map[string]int
+	cfg      *Config
 	// per-run scratch for harness intrinsics
-	ufDecl map[string]bool
-	stack  []string
+	ufDecl      map[string]bool
+	stack       []string
 	inputOrder  []string
 	strOrder    []string
 	choiceOrder []string
@@ -143,6 +148,88 @@ func (in *Interp) syncSolver() {
 	}
 }
 
+// termVars returns the (cached) set of variable/UF names of a term as small integer ids.
+func (in *Interp) termVars(t *Term) []int {
+	if vs, ok := in.varCache[t.id]; ok {
+		return vs
+	}
+	vars := map[string]*Term{}
+	ufs := map[string]bool{}
+	in.tt.Collect(t, vars, ufs, map[int]bool{})
+	var out []int
+	for n := range vars {
+		out = append(out, in.varID("v:"+n))
+	}
+	for n := range ufs {
+		out = append(out, in.varID("f:"+n))
+	}
+	in.varCache[t.id] = out
+	return out
+}
+
+func (in *Interp) varID(n string) int {
+	if id, ok := in.varIDs[n]; ok {
+		return id
+	}
+	id := len(in.varIDs) + 1
+	in.varIDs[n] = id
+	return id
+}
+
+// sliceFor returns the conjuncts of the path condition that share variables (transitively) with t.
+// Because the path condition is satisfiable by invariant, the rest cannot affect the verdict.
+func (in *Interp) sliceFor(t *Term) []*Term {
+	want := map[int]bool{}
+	for _, v := range in.termVars(t) {
+		want[v] = true
+	}
+	taken := make([]bool, len(in.pc))
+	var out []*Term
+	for changed := true; changed; {
+		changed = false
+		for i, c := range in.pc {
+			if taken[i] {
+				continue
+			}
+			vs := in.termVars(c)
+			hit := false
+			for _, v := range vs {
+				if want[v] {
+					hit = true
+					break
+				}
+			}
+			if hit {
+				taken[i] = true
+				out = append(out, c)
+				for _, v := range vs {
+					if !want[v] {
+						want[v] = true
+						changed = true
+					}
+				}
+			}
+		}
+	}
+	return out
+}
+
+func queryKey(sl []*Term, t *Term) string {
+	ids := make([]int, len(sl))
+	for i, c := range sl {
+		ids[i] = c.id
+	}
+	sort.Ints(ids)
+	var sb strings.Builder
+	for _, id := range ids {
+		sb.WriteString(strconv.Itoa(id))
+		sb.WriteByte(',')
+	}
+	sb.WriteByte('|')
+	sb.WriteString(strconv.Itoa(t.id))
+	return sb.String()
+}
+
 // feasible checks PC ∧ t. Returns "sat"/"unsat"/"unknown".
 func (in *Interp) feasible(t *Term) string {
 	if t.IsTrue() {
@@ -151,14 +238,24 @@ func (in *Interp) feasible(t *Term) string {
 	if t.IsFalse() {
 		return "unsat"
 	}
-	in.syncSolver()
+	sl := in.sliceFor(t)
+	key := queryKey(sl, t)
+	if r, ok := in.qcache[key]; ok {
+		in.stats.cacheHits++
+		return r
+	}
 	in.solver.Push()
+	for _, c := range sl {
+		in.solver.Assert(c)
+	}
 	in.solver.Assert(t)
 	r := in.solver.Check()
 	in.solver.Pop()
 	in.stats.feasQ++
 	if r == "unknown" {
 		in.unknowns++
+	} else {
+		in.qcache[key] = r
 	}
 	return r
 }
@@ -261,8 +358,9 @@ func (in *Interp) concretize(t *Term, what string) int64 {
 	}
 	limit := in.cfg.EnumCap
 	var found []int64
-	in.syncSolver()
 	in.solver.Push()
+	in.solver.asserted = 0
+	in.syncSolver()
 	for {
 		r := in.solver.Check()
 		in.stats.feasQ++
@@ -326,6 +424,9 @@ func (in *Interp) evalInSolver(t *Term) int64 {
 }
 
 func (in *Interp) model() (map[string]uint64, bool) {
+	in.solver.Push()
+	defer in.solver.Pop()
+	in.solver.asserted = 0
 	in.syncSolver()
 	r := in.solver.Check()
 	in.stats.feasQ++
@@ -362,22 +463,28 @@ func (in *Interp) assert(c *Term, label string) {
 		panic(pathAbort{"assert violated"})
 	}
 	nc := in.tt.Not(c)
-	in.syncSolver()
-	in.solver.Push()
-	in.solver.Assert(nc)
-	r := in.solver.Check()
+	r := in.feasible(nc)
 	in.stats.assertQ++
 	if r == "unknown" {
-		in.unknowns++
-		in.solver.Pop()
 		in.decisions = append(in.decisions, Decision{'A', 0})
 		in.addPC(c)
 		return
 	}
 	if r == "unsat" {
-		in.solver.Pop()
 		in.decisions = append(in.decisions, Decision{'A', 0})
 		in.addPC(c) // harmless, helps later simplification
+		return
+	}
+	// violated: fetch a model of the whole path condition with the negated assertion
+	in.solver.Push()
+	in.solver.asserted = 0
+	in.syncSolver()
+	in.solver.Assert(nc)
+	if in.solver.Check() != "sat" {
+		in.solver.Pop()
+		in.unknowns++
+		in.decisions = append(in.decisions, Decision{'A', 0})
+		in.addPC(c)
 		return
 	}
 	m := in.solver.Values(in.inputs)
